@@ -8,6 +8,10 @@ CONSTANTS
   StrangerIds = {"0", "4294967297"}
   EraseFirst = TRUE
   KeepOnResponse = FALSE
+  PeerIds = {1, 2}
+  AsyncIntoRequestRing = FALSE
+  Ops = {"req", "notify", "rsp", "stranger", "adv", "cleanup"}
+  GenPeerIds = {1}
   Depth = 4
 SPECIFICATION GSpec
 CONSTRAINT Emit
